@@ -106,9 +106,10 @@ def mutate_attr(
 
     if metadata:
         # Abort if class is frozen.
+        # (Instances of classes that are never copied are always mutated in place.)
         if (
             not (force or getattr(obj, "__spec_class_initializing__", False))
-            and inplace
+            and (inplace or metadata.do_not_copy)
             and obj.__spec_class__.frozen
         ):
             raise FrozenInstanceError(
@@ -366,7 +367,9 @@ def _set_attr(obj: Any, attr: str, value: Any, private_copy: bool = False):
     Set `obj.attr` to `value`. If `obj` is a private copy of a spec-class
     instance (made in order to be mutated), bypass the frozen check.
     """
-    if private_copy and getattr(obj, "__spec_class__", None):
+    metadata = getattr(obj, "__spec_class__", None)
+    if private_copy and metadata and not metadata.do_not_copy:
+        # (Instances of `do_not_copy` classes are never private copies.)
         obj.__setattr__(attr, value, force=True)
     else:
         setattr(obj, attr, value)
